@@ -659,7 +659,7 @@ def desugar_comprehension(
             ),
             next_call=with_loc(it, IterNext(value=it)),
             target=g.target,
-            ifs=g.ifs,
+            ifs=[builder.visit(cond) for cond in g.ifs],
             used_outer_places=[],
         )
         gens.append(desugared)
